@@ -296,7 +296,7 @@ int main(int argc, char** argv) {
     std::vector<std::pair<long, long>> gmp = {{2, 100}, {5, 13}, {65300, 65535}, {2, 2}};
     if (!lightrun) {
       for (auto iv : {std::pair<long, long>{7, 17}, {13, 19}}) small16.push_back(iv);
-      for (auto iv : {std::pair<long, long>{5, 23}, {2, 13}, {1000, 1030}, {65521, 65521}}) small32.push_back(iv);
+      for (auto iv : {std::pair<long, long>{5, 23}, {2, 13}, {1000, 1015}, {65521, 65521}}) small32.push_back(iv);
       for (auto iv : {std::pair<long, long>{2, 53}, {101, 199}, {90, 100}}) gmp.push_back(iv);
     }
     for (int i = 0; i < (std::string(argv[4]) == "heavy" ? 12 : lightrun ? 1 : 4); ++i) {  // seeded random intervals
